@@ -17,7 +17,7 @@ d = os.path.abspath(sys.argv[1])
 checks = sys.argv[2:]
 name = os.path.basename(d.rstrip("/"))
 wt = "/tmp/seedwt_%s_%d" % (re.sub(r"\W", "_", name), os.getpid())
-res = {"dir": d, "checks": {}, "head": subprocess.run(["git", "-C", "/repo", "log", "-1", "--format=%h"], capture_output=True, text=True).stdout.strip()}
+res = {"dir": d, "checks": {}, "base": os.environ.get("SEED_BASE", "HEAD"), "head": subprocess.run(["git", "-C", "/repo", "log", "-1", "--format=%h"], capture_output=True, text=True).stdout.strip()}
 
 
 def sh(cmd, **kw):
@@ -33,7 +33,8 @@ def demo(root):
 
 
 try:
-    r = sh("git -C /repo worktree add -q --detach %s HEAD" % wt)
+    # SEED_BASE=<commit>: evaluate on the commit the change was written against (when it no longer applies to HEAD)
+    r = sh("git -C /repo worktree add -q --detach %s %s" % (wt, os.environ.get("SEED_BASE", "HEAD")))
     if r.returncode:
         raise SystemExit("worktree: " + r.stderr)
     rc0, out0 = demo(wt)
